@@ -30,6 +30,7 @@ ID = "C11"
 LEAN_TARGETS = ["RV.C11.Props", "RV.C11.Audit"]
 AUDIT = "RV/C11/Audit.lean"
 DRIVER = "drv_c11"
+CASE_TIMEOUT_S = 90   # an exhaustive block is ~1.5 s of work; the box is shared and often 5-10x oversubscribed
 EX_BLOCK = 128
 EX_BLOCKS = (1 << 18) // EX_BLOCK
 CASES = {"quick": 1600, "thorough": EX_BLOCKS + 16000, "search": 12000}
@@ -42,10 +43,9 @@ RULE = ("random path expressions (depth <= 4 quick / <= 6 thorough; iri, ^, /, |
         "predicates (blocks of 128) against 24 fixed path shapes with the oracle (one shape per graph also against the "
         "model).  non-trivial = the path has an operator and some binding with a given end has a non-empty answer; "
         "distinct = distinct (triples, path, ends)")
-ASSUMPTIONS = ["a Graph / Dataset view is the set of its triples (C01/C02); named graphs used here are non-empty (the "
-               "`context or c` fallback for empty graphs belongs to C02)",
+ASSUMPTIONS = ["a Graph / Dataset / aggregate view is the set of its triples (C01/C02/C15)",
                "VALUES-bound ends are only compared when the term occurs in the graph (for an absent term the algebra's "
-               "answer differs from the answer for a constant in the pattern; the property speaks of given terms)"]
+               "answer differs from the answer for a constant in the pattern - C15-K1; the property speaks of given terms)"]
 TRUSTED = ["harness/c11.py generators, oracle and canonicalisation", "lean/RV/C11/Drive.lean line protocol and path parser"]
 
 E = "http://e/"
@@ -522,13 +522,13 @@ def _graphs(case):
     full = sorted(set(T))
     dflt = sorted({tuple(t[:3]) for t in case["triples"] if t[3] in (0, 2)})
     named = sorted({tuple(t[:3]) for t in case["triples"] if t[3] in (1, 2)})
-    # the aggregate iterates its members one after the other: a triple held by both is met twice
+    # 4th view, for the aggregate: the concatenation of the members (a shared triple occurs twice).  rdflib's
+    # aggregate de-duplicates such triples; the model is run on the concatenation on purpose — its theorems hold for
+    # any list, and the answers (sets; duplicate-free lists for closures) must not depend on the multiplicity
     return [full, dflt, named, dflt + named]
 
 
 def _applicable(route, case, s, o, parts):
-    if route == "ds_named" and not parts[NAMED]:
-        return False
     if route.startswith("sparql"):
         if has_empty_alt(case["path"]):
             return False
